@@ -125,7 +125,11 @@ func cSkelStmts(ss []*snode) string {
 					init = "1"
 				}
 				name := st.kids[3].atom
+				// the flag scopes over the construct it was declared for (the next statement) and the forwarding test after it
 				j := i + 1
+				if j < len(ss) {
+					j++
+				}
 				for j < len(ss) && mentions(ss[j], name) {
 					j++
 				}
@@ -256,6 +260,7 @@ func cmdCFlow(c *ctx) {
 		setKnob(&o, "clean")
 		o.swBreak = c.chance(0.3)
 		o.contCall = c.chance(0.15)
+		o.fwdNest = c.chance(0.2)
 		m, _ := genModule(c, o)
 		src := m.wgsl()
 		mod, _ := frontEnd(src)
